@@ -161,6 +161,8 @@ pub struct Listener {
     wait_dropped: bool,
     /// The client-dropped marker has been received from the queue of non-waiting requests.
     no_wait_dropped: bool,
+    /// A waiting request that accept has taken out of its queue while no local port was available.
+    taken: Option<Request>,
     closed: bool,
 }
 
@@ -175,7 +177,16 @@ impl Listener {
         wait_rx: mpsc::Receiver<RemoteConnectMsg>, no_wait_rx: mpsc::Receiver<RemoteConnectMsg>,
         port_allocator: PortAllocator, terminate_tx: mpsc::UnboundedSender<()>,
     ) -> Self {
-        Self { wait_rx, no_wait_rx, port_allocator, terminate_tx, wait_dropped: false, no_wait_dropped: false, closed: false }
+        Self {
+            wait_rx,
+            no_wait_rx,
+            port_allocator,
+            terminate_tx,
+            wait_dropped: false,
+            no_wait_dropped: false,
+            taken: None,
+            closed: false,
+        }
     }
 
     /// Obtains the port allocator.
@@ -221,12 +232,13 @@ impl Listener {
 
                 // The remote client has been dropped and its non-waiting requests have been served.
                 // The end of the waiting requests must be noticed even when no local port is available.
-                wait_req_opt = self.wait_rx.recv(), if self.no_wait_dropped && !self.wait_dropped => {
+                wait_req_opt = self.wait_rx.recv(),
+                    if self.no_wait_dropped && !self.wait_dropped && self.taken.is_none() =>
+                {
                     match wait_req_opt {
-                        Some(RemoteConnectMsg::Request(wait_req)) => {
-                            let local_port = self.port_allocator.allocate().await;
-                            break Ok(Some(wait_req.accept_from(local_port).await?));
-                        },
+                        // Keep the request until a local port is available, so that it is not lost
+                        // when this future is dropped.
+                        Some(RemoteConnectMsg::Request(wait_req)) => self.taken = Some(wait_req),
                         Some(RemoteConnectMsg::ClientDropped) => {
                             self.client_dropped(true);
                             if self.closed {
@@ -250,6 +262,10 @@ impl Listener {
     /// Returns [None] when the client of the remote endpoint has been dropped and
     /// no more connection requests can be made.
     pub async fn inspect(&mut self) -> Result<Option<Request>, ListenerError> {
+        if let Some(req) = self.taken.take() {
+            return Ok(Some(req));
+        }
+
         loop {
             if self.closed {
                 return Ok(None);
